@@ -134,7 +134,7 @@ pub fn run(ctx: &mut Ctx) {
     // every constructor index 0..140 (exhaustive) and a few large ones, through the IR
     for i in (0..=140usize).chain([255, 256, 65535, 65536, 4_000_000_000, usize::MAX]) {
         let nf = i % 4;
-        let fields = (0..nf).map(|j| E::Number((i * 7 + j) as i128)).collect();
+        let fields = (0..nf).map(|j| E::Number((i as i128).wrapping_mul(7) + j as i128)).collect();
         cases.push((E::Struct(tir::StructExpr { constructor: i, fields }), None, "ctor_index"));
     }
     // integers at every power-of-two boundary +-1 up to the i128 extremes
